@@ -17,26 +17,25 @@ end IpcHub.Tables
 
 namespace IpcHub.Fs
 
-def parseName : String → Option FName
-  | "target" => some .target
-  | "temp" => some .temp
-  | _ => none
+def parseName (s : String) : Option FName :=
+  if s = "target" then some .target else if s = "temp" then some .temp else none
 
-/-- the translator writes the program as strings (Gen files import nothing) -/
-def parseOp (s : String) : Option FsOp :=
-  match s.splitOn " " with
-  | ["openTrunc", f] => (parseName f).map .openTrunc
-  | ["write", f] => (parseName f).map .write
-  | ["sync", f] => (parseName f).map .sync
-  | ["close", f] => (parseName f).map .close
-  | ["rename", a, b] => match parseName a, parseName b with
-    | some a, some b => some (.rename a b)
-    | _, _ => none
-  | ["marshal"] => some .marshal
-  | ["hook", n] => some (.hook n)
-  | _ => none
+/-- the translator writes the program as string triples (Gen files import nothing) -/
+def parseOp : String × String × String → Option FsOp
+  | (op, a, b) =>
+    if op = "openTrunc" then (parseName a).map .openTrunc
+    else if op = "write" then (parseName a).map .write
+    else if op = "sync" then (parseName a).map .sync
+    else if op = "close" then (parseName a).map .close
+    else if op = "rename" then
+      match parseName a, parseName b with
+      | some a, some b => some (.rename a b)
+      | _, _ => none
+    else if op = "marshal" then some .marshal
+    else if op = "hook" then some (.hook a)
+    else none
 
-def parseProg : List String → Option (List FsOp)
+def parseProg : List (String × String × String) → Option (List FsOp)
   | [] => some []
   | s :: ss => match parseOp s, parseProg ss with
     | some o, some os => some (o :: os)
